@@ -82,3 +82,15 @@ func OctetsFor(r int64) int {
 	}
 	return 2
 }
+
+// LengthOctets is the number of octets of an unconstrained length determinant (X.691 10.9.3.5-10.9.3.8):
+// one for n <= 127, two for n <= 16383, one (the fragment header 11000mmm) for the multiples of 16K.
+func LengthOctets(n uint64) int {
+	if n <= 127 {
+		return 1
+	}
+	if n <= 16383 {
+		return 2
+	}
+	return 1
+}
